@@ -65,6 +65,23 @@ def check_design(ctx, g, cls, k, cycles, nsimple, nforced, ffl, coq_cases, coq_m
       if d:
         ctx.violation(f'C01:schedule-dependent:{g.name}:{sch}', f'design {g.name}: signals differ between {base_name} and {sch}#{i} at step {d[0]} ({"eval" if d[0]%2==0 else "tick"} of cycle {d[0]//2}): {d[2]}',
                       {'design_source': src, 'schedulers': [base_name, f'{sch}#{i}'], 'input_seed': seed, 'step': d[0], 'signals': d[2]})
+  # reference trajectory ref(D,I,t): the dataflow equations evaluated by the oracle (each update_ff block alone on the
+  # pre-edge state, every double-buffered leaf flipped by the oracle itself, comb blocks to their fixed point)
+  from c07 import oracle_tick
+  O = sc.build(cls, 'simple', seed=0); fpo = sc.Footprints(O)
+  O.sim_reset(); ro = random.Random(seed)
+  A = sc.build(cls, 'simple', seed=1); A.sim_reset(); ra = random.Random(seed)
+  for c in range(cycles):
+    sc.drive_inputs(O, g, ro); sc.drive_inputs(A, g, ra)
+    se, st = oracle_tick(ctx, O, g, fpo, src, c, both=True)
+    A.sim_eval_combinational(); ae = sc.snapshot(A); A.sim_tick(); at = sc.snapshot(A)
+    ctx.count((g.name, 'ref', c), True, cls='reference-trajectory')
+    if ae != se or at != st:
+      which, a_, b_ = ('eval', ae, se) if ae != se else ('tick', at, st)
+      ks = [x for x in b_ if a_.get(x) != b_[x]]
+      ctx.violation(f'C01:differs-from-reference:{g.name}', f'design {g.name}: after {which} of cycle {c} the simulator differs from the dataflow reference on {ks[:4]} (observed/reference {[(a_.get(x), b_[x]) for x in ks[:4]]})',
+                    {'design_source': src, 'cycle': c, 'phase': which, 'input_seed': seed, 'signals': {x: (a_.get(x), b_[x]) for x in ks[:8]}})
+      break
   # flip-flop block orders
   for perm in ff_perms(nff, rng, ffl):
     if perm is None: continue
